@@ -34,6 +34,16 @@ CHECKS = {
              "stages handed over in training mode; every forward records (training, grad-enabled); mismatched args must raise; inputs "
              "compared with clones. The whole (n, b) grid (940 pairs x 2 model kinds) is enumerated in both tiers.",
         note="BatchNorm uses eps=0 and power-of-four running variances so eval-mode arithmetic is exact for any batching; device is cpu."),
+    "C08": dict(
+        technique="property-based testing (Hypothesis): differential against explicit per-index loops, with an echo func that encodes the (X, args) it received and predict on an exact-integer model",
+        category="exploration", design_ref="DESIGN.md §3 C08",
+        text="For marginalize, ablate, space, marginalize_annotations, ablate_annotations, apply_pairwise and apply_product every entry "
+             "of the before/after/product output is compared exactly with func applied to the input the index denotes (string model of "
+             "substitute/multisubstitute, the stated-seed shuffle, the annotation's span, the argument row(s)), for 1-3 outputs, 0-2 "
+             "per-example args with distinct rows, n shuffles 1-5, 1-4 spacing rows, 1-6 annotations (!= #outputs) and product batch "
+             "sizes that do not divide the product size.",
+        note="func returns a tensor or a flat tuple/list; ablate_annotations with per-example args and B>1 is refused by the code and "
+             "counted as rejected_by_sut; deep_lift_shap as func is exercised in C06/C07, not here."),
     "C09": dict(
         technique="property-based testing (Hypothesis): differential against explicit per-mutant forward passes of an exact-integer model",
         category="exploration", design_ref="DESIGN.md §3 C09",
